@@ -48,8 +48,9 @@ PROVED = ["c_aggregate", "c_flathomogen", "c_islin", "c_eckhardt", "c_var2h", "c
           "c_dateutils_comparedates", "c_armodel_sim", "c_armodel_residual", "c_crps", "c_ensrank", "c_ad_test (ADtest)",
           "c_paretofront", "c_olsleverage", "c_coord2cell", "c_cell2coord", "c_cell2rowcol", "c_neighbours",
           "c_upstream", "c_downstream", "c_accumulate", "c_slope", "c_slice", "c_intersect", "c_voronoi", "c_inside",
-          "c_exclude_zero_area_boundary", "c_delineate_river", "c_delineate_flowpathlengths_in_catchment"]
-ORACLE_ONLY = ["c_delineate_area", "c_delineate_boundary", "c_dateutils_isleapyear",
+          "c_exclude_zero_area_boundary", "c_delineate_river", "c_delineate_flowpathlengths_in_catchment",
+          "c_delineate_boundary"]
+ORACLE_ONLY = ["c_delineate_area", "c_dateutils_isleapyear",
                "qsort / libm / the Cython-generated glue"]
 
 
@@ -186,10 +187,11 @@ def api_part(ctx, specs, externs, asan_dir, workroot):
             for p in json.loads(f.read_text()).get("probes", []):
                 probes.append(dict(p, cls="corpus/" + p.get("cls", f.stem)))
     ncorpus = len(probes)
-    probes += G.gen_all(ctx.rng, lambda q, t: 3 * ctx.scale(q, t))
+    probes += G.gen_all(ctx.rng, lambda q, t: ctx.scale(3 * q, 3 * t), size=ctx.scale)
     t0 = time.time()
     results, info = run_parallel(probes, asan_dir, C.REPO, workroot / "api", ctx.scale(4, 6),
                                  per_probe_timeout=60.0, batch_timeout=ctx.scale(600.0, 1500.0))
+    t_run = time.time() - t0
     bnd = Boundary(specs, externs)
     lines, owners = [], []
     nomodel = 0
@@ -210,7 +212,9 @@ def api_part(ctx, specs, externs, asan_dir, workroot):
             ext = {b: P[pn] for b, pn in pairs}
             lines.append(M.request(model, pairs, toks, ext))
             owners.append(i)
+    t_build = time.time() - t0 - t_run
     replies = ctx.lean.ask(lines) if lines else []
+    t_driver = time.time() - t0 - t_run - t_build
     verdict = {}
     for i, rep, ln in zip(owners, replies, lines):
         v = verdict.setdefault(i, {"n": 0, "bad": []})
@@ -248,6 +252,7 @@ def api_part(ctx, specs, externs, asan_dir, workroot):
     ctx.extra["api"] = {"probes": len(probes), "corpus": ncorpus, "kernel_calls_modelled": len(lines),
                         "kernel_calls_without_model": nomodel, "workers": info["workers"],
                         "worker_deaths": info["deaths"], "wall_s": round(time.time() - t0, 1),
+                        "run_s": round(t_run, 1), "requests_s": round(t_build, 1), "driver_s": round(t_driver, 1),
                         "loaded": info.get("loaded"), "entries": entries}
     if info.get("loaded"):
         for m, f in info["loaded"].items():
